@@ -647,6 +647,9 @@ func (g *TransferGen) Run(nOps int) {
 	if g.script == 2 && !g.relay {
 		g.RunRelayEdit()
 	}
+	if g.script == 1 {
+		g.RunPortEdit()
+	}
 }
 
 var _ = sdk.AccAddress{}
@@ -664,6 +667,16 @@ func (g *TransferGen) recvWithOracles(c *tibctesting.TestChain, signer int, p pa
 		g.w.ClientLatest(c, p.SourceChain) != 0 {
 		// genuine packet, verified, but the relay chain does not know the destination
 		g.w.hit("C11", "relay-aborts-on-unknown-destination-instead-of-error-ack "+fkey(p))
+	}
+	if fl := g.led.flights[fkey(p)]; fl != nil && res.Code == 0 && c.ChainName == p.DestinationChain && p.Port != fl.pkt.Port &&
+		strings.HasPrefix(g.w.AckTok(writtenAck(res)), "ackok|") {
+		// delivered with success to another application than the one that sent it: what the sender
+		// locked or burnt stays so for good, and the other application created a token of its own
+		prop := "C04"
+		if g.mt {
+			prop = "C05"
+		}
+		g.w.hit(prop, fmt.Sprintf("packet-of-port-%s-delivered-with-success-to-application-%s sender's-tokens-stay-locked %s", fl.pkt.Port, p.Port, fkey(p)))
 	}
 	if g.mt {
 		g.mtAfterRecv(c, p, res, mb)
@@ -904,6 +917,66 @@ func (g *TransferGen) RunRelayEdit() {
 	ps = ProofSpec{Kind: "honest", Chain: B.ChainName, Height: h, Key: "ack", Src: p.SourceChain, Dst: p.DestinationChain, Seq: p.Sequence}
 	res = g.ackWithOracles(A, 0, p2, t.tok, ackB, ps, h, true)
 	g.stat("relayedit.ack-on-source." + ErrClass(res.Codespace, res.Code))
+	g.tokenOracles()
+}
+
+// RunPortEdit: the port named by a packet is not covered by the packet commitment either, and
+// the two transfer applications' packet data have the same protobuf layout (fields 1-7; the
+// multi-token amount is field 8). A multi-token transfer delivered with the port set to "NFT"
+// is decoded by the NFT application as a token of the same class and id; an NFT transfer
+// delivered with the port set to "MT" is decoded as a multi-token transfer of amount 0.
+func (g *TransferGen) RunPortEdit() {
+	w := g.w
+	if len(w.Chains) < 2 {
+		return
+	}
+	w.Scenario = "port-edit"
+	defer func() { w.Scenario = "" }()
+	a, c := 1, 0
+	A, C := g.chain(a), g.chain(c)
+	if w.ClientLatest(C, A.ChainName) == 0 || w.ClientLatest(A, C.ChainName) == 0 {
+		return
+	}
+	var t *tpkt
+	other := "NFT"
+	if g.mt {
+		class := w.MtIssue(A, 0)
+		if class == "" {
+			return
+		}
+		id, res := w.MtMint(A, 0, class, "", 7, w.Acct(a, 1).String())
+		g.mtAfterMint(A, class, id, 7, res)
+		if res.Code != 0 {
+			return
+		}
+		t = g.mtXfer(a, 1, class, id, w.Acct(c, 1).String(), C.ChainName, "", 5)
+	} else {
+		other = "MT"
+		class, id := "portedit", "tok1"
+		if w.NftIssue(A, 0, class, false).Code != 0 {
+			return
+		}
+		g.nftAfterMint(A, class, id, w.NftMint(A, 0, class, id, "uri", w.Acct(a, 1).String()))
+		t = g.nftXfer(a, 1, class, id, w.Acct(c, 1).String(), C.ChainName, "")
+	}
+	if t == nil {
+		return
+	}
+	p2 := t.p
+	p2.Port = other
+	h := w.Update(C, A)
+	ps := ProofSpec{Kind: "honest", Chain: A.ChainName, Height: h, Key: "commit", Src: p2.SourceChain, Dst: p2.DestinationChain, Seq: p2.Sequence}
+	res := g.recvWithOracles(C, 0, p2, t.tok, ps, h)
+	g.stat("portedit.recv-as-" + other + "." + ErrClass(res.Codespace, res.Code))
+	ack := writtenAck(res)
+	if res.Code != 0 || ack == nil {
+		return
+	}
+	g.stat("portedit.ack-written." + strings.SplitN(w.AckTok(ack), "|", 2)[0])
+	h = w.Update(A, C)
+	ps = ProofSpec{Kind: "honest", Chain: C.ChainName, Height: h, Key: "ack", Src: p2.SourceChain, Dst: p2.DestinationChain, Seq: p2.Sequence}
+	res = g.ackWithOracles(A, 0, t.p, t.tok, ack, ps, h, true)
+	g.stat("portedit.ack-on-source." + ErrClass(res.Codespace, res.Code))
 	g.tokenOracles()
 }
 
